@@ -835,6 +835,11 @@ def alt_formatter(cfg: T.Dict[str, T.Any], cfgdir: str, reset: T.Iterable[str]):
     return formatter_for(cfgdir, slot)
 
 
+def is_subsequence(a: T.List[str], b: T.List[str]) -> bool:
+    it = iter(b)
+    return all(x in it for x in a)
+
+
 def multiset_sub(a: T.List[str], b: T.List[str]) -> T.List[str]:
     b = list(b)
     out = []
@@ -931,12 +936,8 @@ def run_pair(text: str, cfgdir: str, cfgid: int, cfg: T.Dict[str, T.Any], want_s
                     key = 'comments:reordered-by-sort-files'
         elif not multiset_sub(c_out, c_in):
             key = 'comments:lost'
-            if not multiset_sub(lost, flat_comments):
-                rest = list(c_in)
-                for x in lost:
-                    rest.remove(x)
-                if rest == c_out or (sort_on and sorted(rest) == sorted(c_out)):
-                    key = 'comments:lost-on-files-flatten'
+            if not multiset_sub(lost, flat_comments) and (is_subsequence(c_out, c_in) or sort_on):
+                key = 'comments:lost-on-files-flatten'
         res['viol'].append((key, f'comments {c_in!r} -> {c_out!r}'[:300]))
     # -- idempotence
     try:
@@ -977,7 +978,11 @@ def region_features(out: str, out2: str) -> T.Set[str]:
         tree = parse(out)
     except Exception:
         return feats
-    starts = [n.lineno for n in tree.lines] + [len(a) + 1]
+    def min_line(n) -> int:
+        if isinstance(n, tuple):
+            return min([min_line(k) for k in n[1]] if n[0] == 'Kw' else [10 ** 9])
+        return min([n.lineno] + [min_line(k) for k in node_parts(n)[3]])
+    starts = [min_line(n) for n in tree.lines] + [len(a) + 1]
     sel = [n for k, n in enumerate(tree.lines) if starts[k] <= hi and starts[k + 1] - 1 >= lo]
 
     def walk(n) -> None:
@@ -1016,11 +1021,10 @@ def classify_idem(text: str, out: str, out2: str, cfg: T.Dict[str, T.Any], cfgdi
         except Exception:
             return False
     active = [o for o in CAUSE_OPTIONS if cfg[o] != (DEFAULT_CFG[o] if o != 'simplify_string_literals' else False)]
-    for opt in active:
-        if idem_without([opt]):
-            return ['idempotence:' + opt]
-    if len(active) > 1 and idem_without(active):
-        return ['idempotence:' + o for o in active]
+    for k in range(1, len(active) + 1):
+        for opts in itertools.combinations(active, k):
+            if idem_without(list(opts)):
+                return ['idempotence:' + o for o in opts]
     rf = region_features(out, out2)
     for c in ('files-array', 'multiline-paren'):
         if c in rf:
@@ -1123,3 +1127,453 @@ def shrink(text: str, cfg: T.Dict[str, T.Any], key: str, cfgdir: str, budget: in
         if not progressed or n == 1:
             n //= 2
     return text, cfg
+
+
+# --------------------------------------------------------------------------------------------- generated tables
+
+def _probe_string(mformat, mparser, raw: str, multi: bool, fstr: bool, on: bool = True):
+    """run the real TrimWhitespaces.visit_StringNode on a freshly built StringNode"""
+    tid = ('multiline_' if multi else '') + ('fstring' if fstr else 'string')
+    node = mparser.StringNode(mparser.Token(tid, '', 0, 1, 0, (0, 0), raw))
+    cfg = mformat.FormatterConfig.default()
+    cfg.simplify_string_literals = on
+    mformat.TrimWhitespaces(cfg).visit_StringNode(node)
+    return node
+
+
+def extract_tables() -> T.Tuple[T.List[int], T.List[int]]:
+    """characters whose presence keeps a triple-quoted string triple-quoted / an f-string an f-string,
+    observed on the live code for every code point 0..255 (value 'a' + chr + 'b')"""
+    mformat, mparser, _ = impl()
+    excl, fmark = [], []
+    for cp in range(256):
+        v = 'a' + chr(cp) + 'b'
+        if _probe_string(mformat, mparser, v, True, False).is_multiline:
+            excl.append(cp)
+        if _probe_string(mformat, mparser, v, True, True).is_fstring:
+            fmark.append(cp)
+    # without any such character both rules fire
+    assert not _probe_string(mformat, mparser, 'ab', True, True).is_multiline
+    assert not _probe_string(mformat, mparser, 'ab', True, True).is_fstring
+    return excl, fmark
+
+
+def gen_tables(ctx: Ctx) -> None:
+    excl, fmark = extract_tables()
+    body = f'''/- generated by harness/c16.py gen_tables from the live mesonbuild.mformat (do not edit) -/
+namespace MesonModel.Generated.FmtTables
+
+/-- code points whose presence in the value keeps a triple-quoted string triple-quoted
+(`TrimWhitespaces.visit_StringNode`, observed for every code point 0..255) -/
+def simplifyExcludedCodes : List Nat := [{", ".join(map(str, excl))}]
+
+/-- code points whose presence in the value keeps an f-string an f-string -/
+def fstringMarkerCodes : List Nat := [{", ".join(map(str, fmark))}]
+
+def simplifyExcluded : List Char := simplifyExcludedCodes.map Char.ofNat
+def fstringMarkers : List Char := fstringMarkerCodes.map Char.ofNat
+
+end MesonModel.Generated.FmtTables
+'''
+    path = os.path.join(common.LEAN, 'MesonModel', 'Generated', 'FmtTables.lean')
+    old = open(path, encoding='utf-8').read() if os.path.exists(path) else None
+    if old != body:
+        with open(path, 'w', encoding='utf-8') as f:
+            f.write(body)
+        ctx.notes.append('Generated/FmtTables.lean rewritten')
+    ctx.extra['simplify_excluded_codes'] = excl
+    ctx.extra['fstring_marker_codes'] = fmark
+
+
+# --------------------------------------------------------------------------------------------- targeted inputs
+
+# demonstrations of the recorded findings and regression inputs; (text, option overrides)
+TARGETED: T.List[T.Tuple[str, T.Dict[str, T.Any]]] = [
+    ("x = '''a\\nb'''\n", {}),                                     # simplify:multiline-backslash
+    ("x = '''\\'''\n", {}),                                        # simplify:unparseable-backslash
+    ("x = f'''\\x40a\\x40'''\n", {}),                              # becomes a substituting f-string
+    ("x = '''a\\nb'''\n", {'simplify_string_literals': False}),
+    ("files(['b', 'a'])\n", {'sort_files': True}),                  # idempotence:sort_files
+    ("files([['a']])\n", {}),                                       # idempotence:files-array
+    ("files(['a'] # about a\n)\n", {}),                             # comments:lost-on-files-flatten
+    ("files('b' # c1\n, 'a' # c2\n)\n", {'sort_files': True}),      # comments:reordered-by-sort-files
+    ("f('a',)\n", {'no_single_comma_function': True}),              # idempotence:no_single_comma_function
+    ("cs = 'Z.c' - ((0b101))\n", {'max_line_length': 20}),          # idempotence:multiline-paren
+    ("x = files('b', 'a10', 'a9', 'd/a', y, 'A1', 'a/b/c', 'a/b')\n", {'sort_files': True}),
+    ("x = (a not # c\n in b)\n", {}),
+    ("x = [1,2,\n  3 # foo\n]\n", {}),
+    ("", {}), ("\n", {}), ("# only a comment", {}), ("\n\n# c\n\n", {}), ("x=1", {'insert_final_newline': False}),
+    ("if a\n# in block\nendif\n", {}), ("if a # c1\n  b = 1 # c2\nelse # c3\n  # c4\nendif # c5\n", {}),
+    ("foreach a, b : d # c\n continue # c2\nendforeach\n", {}),
+    ("x = f'@a@' + f'a@b' + f'''@a@''' + '''it's'''\n", {}),
+    ("a = b ? c : d\nx = (a ? b : c) ? d : e\n", {}),
+    ("e = executable('a', 'b.c', dependencies : [x, y], install : true, c_args : ['--opt', 'value', '--', '-Dx'])\n",
+     {'max_line_length': 40, 'group_arg_value': True, 'kwargs_force_multiline': True, 'wide_colon': True}),
+    ("a = [ 1, 2 ]\nd = { 'a' : 1, 'b' : [ ] }\n", {'space_array': True}),
+    ("x = a \\\n  + b \\ # c\n  + c\n", {}),
+    ("a.b(c).d(e, f: g)[0].h()\n", {'max_line_length': 20}),
+]
+
+
+# --------------------------------------------------------------------------------------------- worker
+
+def _job(a: T.Tuple[str, T.List[T.Dict[str, T.Any]], str, T.Any]) -> T.List[T.Dict[str, T.Any]]:
+    """kind 'gen': (seed, n, per) generates n programs, each under `per` configurations;
+    kind 'texts': list of (origin, text, cfgid)"""
+    cfgdir, cfgs, kind, payload = a
+    out = []
+    items: T.List[T.Tuple[str, str, int]] = []
+    if kind == 'gen':
+        seed, n, per = payload
+        rng = random.Random(seed)
+        for _ in range(n):
+            text = gen_program(rng, rng.choice([1, 2, 3, 5]), rng.choice([0.0, 0.2, 0.5, 0.8]))
+            for ci in rng.sample(range(len(cfgs)), per):
+                items.append(('gen', text, ci))
+    else:
+        items = payload
+    for origin, text, ci in items:
+        r = run_pair(text, cfgdir, ci, cfgs[ci])
+        r['origin'] = origin
+        if r['status'] == 'ok' and (origin != 'gen' or hash(text) % 8 == 0):
+            r['viol'] += check_cli(text, cfgdir, ci, r['out'], cfgs[ci]['end_of_line'])
+            r['cli'] = True
+            if r.get('idem'):
+                r['viol'] += [(k, w + ' (on formatted text)') for k, w in check_cli(r['out'], cfgdir, ci, r['out'], cfgs[ci]['end_of_line'])]
+        out.append(r)
+    return out
+
+
+def nondefault(cfg: T.Dict[str, T.Any]) -> T.Dict[str, T.Any]:
+    return {k: v for k, v in cfg.items() if v != DEFAULT_CFG[k]}
+
+
+def decision_cases(rng: random.Random, n: int) -> T.Tuple[T.List[T.Tuple[str, bool, bool, bool]], T.List[T.List[str]], T.List[str]]:
+    g = Gen(rng, hostile_strings=1.0)
+    strs: T.List[T.Tuple[str, bool, bool, bool]] = []
+    for raw in ['', 'a', 'a\\nb', '\\', "it's", 'a\nb', '@a@', '\\x40a\\x40', 'a@b', '@_x1@', '@1@', '@a b@', '@@', '\\101\\7\\1012',
+                '\\U0001f600\\u00e9\\xe9', '\\q\\8\\x4', "\\'", '\\\\n', '\\\n']:
+        for multi in (False, True):
+            for f in (False, True):
+                for on in (True, False):
+                    strs.append((raw, multi, f, on))
+    for _ in range(n):
+        multi = rng.random() < 0.5
+        raw = g.multi_body() if multi else g.plain_body()
+        if rng.random() < 0.3:
+            raw = ''.join(rng.choice(['a', '\\', "\\'", '@', 'x1', '_', ' ', '\\n', '1', '\\x4', '0', 'é', '\\u00e9', '7']) for _ in range(rng.randint(0, 7)))
+            if multi and (raw.endswith("'") or "'''" in raw):
+                raw += 'z'
+        strs.append((raw, multi, rng.random() < 0.4, rng.random() < 0.9))
+    lists = []
+    pool = WORDS + ['a/b', 'a/B/c', 'a/b/c10', 'a/b/c9', 'x/', '/x', 'a//b', '10', '9', '09', '1/2', 'a1b2', 'a1b10', 'A', 'é', 'dir/a.c', 'dir2/a.c', 'dir10/a.c']
+    for _ in range(n // 4):
+        lists.append([rng.choice(pool) if rng.random() < 0.8 else ''.join(rng.choice('aB1/0_. 9') for _ in range(rng.randint(0, 6)))
+                      for _ in range(rng.randint(0, 7))])
+    flats = ["files(['a', 'b'])", "files([ 'a' ])", "files([ # c\n 'a'])", "files(['a'], 'b')", "files(['a'], k: 1)", "files()", "files([])",
+             "files([['a']])", "files(['a', k: 1])", "filez(['a'])", "files( # c\n['a'])", "files(['a'] # c\n)", "files(x)", "files([\n'a'])",
+             "files(['a',],)", "files([\\\n 'a'])"]
+    for _ in range(n // 8):
+        toks = g.call(1)
+        if toks[0] == 'files':
+            flats.append(g.render(toks))
+    return strs, lists, flats
+
+
+def check_decisions(ctx: Ctx) -> None:
+    """the modelled rewriting decisions one by one against the real code"""
+    mformat, mparser, _ = impl()
+    rng = ctx.rng
+    strs, lists, flats = decision_cases(rng, ctx.scale(3000, 30000))
+    lines, expect, inputs = [], [], []
+    RP = __import__('mesonbuild.ast.printer', fromlist=['RawPrinter']).RawPrinter
+    for raw, multi, f, on in strs:
+        try:
+            node0 = mparser.StringNode(mparser.Token(('multiline_' if multi else '') + ('fstring' if f else 'string'), '', 0, 1, 0, (0, 0), raw))
+        except Exception:
+            continue  # \N{..} / illegal code points: outside the model (C02 finding)
+        if any(0xD800 <= ord(c) <= 0xDFFF for c in node0.value):
+            continue
+        node = _probe_string(mformat, mparser, raw, multi, f, on)
+        pr = RP()
+        node.accept(pr)
+        lines.append(f'simp {int(on)}|{enc(raw)}|{int(multi)}|{int(f)}')
+        expect.append(f'{int(node.is_multiline)};{int(node.is_fstring)};{enc(pr.result)}')
+        inputs.append(('simp', raw, multi, f, on))
+        lex_ok = re.fullmatch(r"([^'\\]|(\\.))*", raw) is not None
+        lines.append(f'den {enc(raw)}|{int(multi)}|{int(f)}')
+        expect.append(f'{enc(node0.value)};{int(bool(f and FSUB.search(node0.value)))};{int(lex_ok)}')
+        inputs.append(('den', raw, multi, f))
+        ctx.tag('decision:string:' + ('multi' if multi else 'plain') + (':f' if f else ''))
+    from mesonbuild.mesonlib import pathname_sort_key
+    for l in lists:
+        lines.append(f'sort {enc_list(l)}')
+        expect.append(enc_list(sorted(l, key=pathname_sort_key)))
+        inputs.append(('sort', l))
+        ctx.tag('decision:sort')
+        # the property's own requirement on the implementation's order: a stable permutation
+        s1 = sorted(l, key=pathname_sort_key)
+        if sorted(s1) != sorted(l) or sorted(s1, key=pathname_sort_key) != s1:
+            ctx.violation('sort:not-a-stable-permutation', 'sorted(key=pathname_sort_key) is not an idempotent permutation', {'list': l})
+    for text in flats:
+        try:
+            tree = parse(text)
+        except Exception:
+            continue
+        if len(tree.lines) != 1 or type(tree.lines[0]).__name__ != 'FunctionNode':
+            continue
+        node = tree.lines[0]
+        line = f'flat {ser(node)}'
+        before = node.args
+        cfg = mformat.FormatterConfig.default()
+        tw = mformat.TrimWhitespaces(cfg)
+        tw.enter_node(node)
+        # the decision is taken before any whitespace is moved: evaluate the coded condition's effect
+        tree2 = parse(text)
+        n2 = tree2.lines[0]
+        arr = n2.args.arguments[0] if len(n2.args.arguments) == 1 else None
+        try:
+            tree2.accept(__import__('mesonbuild.ast.postprocess', fromlist=['AstConditionLevel']).AstConditionLevel())
+            tw.visit_FunctionNode(n2)
+        except Exception as e:
+            ctx.notes.append(f'flat: TrimWhitespaces raised {type(e).__name__} on {text!r}')
+            continue
+        flattened = arr is not None and type(arr).__name__ == 'ArrayNode' and n2.args is arr.args
+        lines.append(line)
+        expect.append(str(int(flattened)))
+        inputs.append(('flat', text))
+        ctx.tag('decision:flatten:' + str(int(flattened)))
+    if not ctx.model_available:
+        return
+    ans = ctx.driver('fmt', lines)
+    for a, e, i in zip(ans, expect, inputs):
+        ctx.count()
+        got = a.split(';')[0] if i[0] == 'flat' else a
+        if got != e:
+            ctx.disagreement({'kind': 'decision', 'input': list(i), 'model': a[:300], 'impl': e[:300]})
+
+
+# --------------------------------------------------------------------------------------------- run
+
+def build_cases(ctx: Ctx, cfgs: T.List[T.Dict[str, T.Any]], cfgdir: str) -> T.List[T.Tuple[str, T.Any, str, T.Any]]:
+    rng = ctx.rng
+    jobs: T.List[T.Tuple[str, T.Any, str, T.Any]] = []
+    ncfg = len(cfgs)
+    # targeted (configurations appended to cfgs by the caller: indexes recorded in TARGET_IDX)
+    items = [('targeted', text, TARGET_IDX[i]) for i, (text, _o) in enumerate(TARGETED)]
+    jobs.append((cfgdir, cfgs, 'texts', items))
+    # corpus
+    corpus = corpus_texts()
+    fmt_corpus = [c for c in corpus if 'test cases/format' in c[0] or c[0].startswith('corpus/')]
+    common_corpus = [c for c in corpus if c not in fmt_corpus]
+    if not ctx.deep:
+        common_corpus = rng.sample(common_corpus, min(len(common_corpus), 50))
+    items = []
+    for origin, text in fmt_corpus + common_corpus:
+        for ci in [0] + rng.sample(range(1, ncfg_base(cfgs)), ctx.scale(2, 6)):
+            items.append(('corpus', text, ci))
+    nmut = ctx.scale(300, 4000)
+    for _ in range(nmut):
+        origin, text = rng.choice(fmt_corpus if rng.random() < 0.6 else common_corpus)
+        if len(text) > 6000:
+            continue
+        items.append(('mutated', mutate(rng, text), rng.randrange(ncfg_base(cfgs))))
+    rng.shuffle(items)
+    for i in range(0, len(items), 40):
+        jobs.append((cfgdir, cfgs, 'texts', items[i:i + 40]))
+    # generated
+    nprog = ctx.scale(3500, 60000)
+    per = 2
+    chunk = 100
+    for _ in range(nprog // chunk):
+        jobs.append((cfgdir, cfgs[:ncfg_base(cfgs)], 'gen', (rng.getrandbits(48), chunk, per)))
+    return jobs
+
+
+TARGET_IDX: T.List[int] = []
+_NBASE = 0
+
+
+def ncfg_base(cfgs) -> int:
+    return _NBASE
+
+
+def run(ctx: Ctx) -> None:
+    global _NBASE
+    impl()
+    rng = ctx.rng
+    ctx.rule = ('a pair (text, configuration) is non-trivial when the input parses and the formatted text differs '
+                'from the input; counted distinct by (text, configuration)')
+    ctx.assumptions += [
+        'inputs are ASCII plus the inert code points é € 中; no \\N{..} escapes, no surrogate or >U+10FFFF escapes',
+        'unparseable inputs are outside the property and skipped (counted); parser internal errors are C02\'s subject',
+        'f-string denotation taken from InterpreterBase.evaluate_fstring: substitution sites are matches of @ident@',
+        'nesting depth of generated programs <= 7 (RecursionError is a runtime limit)',
+    ]
+    check_decisions(ctx)
+    cfgdir = common.scratch_dir('mverif-c16cfg-')
+    try:
+        cfgs = pairwise_configs(rng, ctx.scale(6, 300))
+        _NBASE = len(cfgs)
+        TARGET_IDX.clear()
+        for text, over in TARGETED:
+            c = dict(DEFAULT_CFG)
+            c.update(over)
+            if c in cfgs:
+                TARGET_IDX.append(cfgs.index(c))
+            else:
+                cfgs.append(c)
+                TARGET_IDX.append(len(cfgs) - 1)
+        write_cfgs(cfgdir, cfgs)
+        ctx.extra['configurations'] = len(cfgs)
+        jobs = build_cases(ctx, cfgs, cfgdir)
+        with mp.Pool(min(16, os.cpu_count() or 4)) as pool:
+            results = [r for rs in pool.imap(_job, jobs, chunksize=1) for r in rs]
+        process(ctx, results, cfgs, cfgdir)
+    finally:
+        common.rmtree(cfgdir)
+
+
+def process(ctx: Ctx, results: T.List[T.Dict[str, T.Any]], cfgs: T.List[T.Dict[str, T.Any]], cfgdir: str) -> None:
+    lines: T.List[str] = []
+    meta: T.List[T.Tuple[str, T.Dict[str, T.Any]]] = []
+    unknown: T.Dict[str, T.List[T.Tuple[str, int, str]]] = {}
+    programs = 0
+    for r in results:
+        ctx.count()
+        ctx.tag('status:' + r['status'])
+        ctx.tag('origin:' + r['origin'])
+        cfg = cfgs[r['cfgid']]
+        if r['status'] in ('input-unparseable', 'recursion') or r['status'].startswith('input-parser-error'):
+            continue
+        programs += 1
+        for k, v in nondefault(cfg).items():
+            ctx.tag(f'opt:{k}={v!r}')
+        for f in r.get('feats', []):
+            ctx.tag('feature:' + f)
+        if r.get('cli'):
+            ctx.tag('cli-checked')
+        if r.get('ncom'):
+            ctx.tag('with-comments')
+        if r.get('out') is not None and r['out'] != r['text']:
+            ctx.seen_nontrivial(hash((r['text'], r['cfgid'])))
+        ctx.sample({'text': r['text'][:200], 'cfg': nondefault(cfg), 'out': (r.get('out') or '')[:200]}, limit=4)
+        for key, what in r['viol']:
+            ctx.tag('oracle:' + key)
+            if key in ctx.known:
+                ctx.violation(key, what, {'text': r['text'], 'cfg': nondefault(cfg)})
+            else:
+                unknown.setdefault(key, []).append((r['text'], r['cfgid'], what))
+        if 'ser_in' in r:
+            lines.append(f'check {int(bool(cfg["sort_files"]))}|{r["ser_in"]}|{r["ser_out"]}')
+            meta.append(('check', r))
+            lines.append(f'coms {r["ser_in"]}')
+            meta.append(('coms', r))
+    ctx.extra['programs'] = programs
+    # unknown violations: report the smallest (shrunk) input per key
+    for key, lst in sorted(unknown.items()):
+        lst.sort(key=lambda x: len(x[0]))
+        text, ci, what = lst[0]
+        try:
+            t2, c2 = shrink(text, cfgs[ci], key, cfgdir, budget=ctx.scale(250, 1500))
+        except Exception:
+            t2, c2 = text, cfgs[ci]
+        ctx.violation(key, what, {'text': t2, 'cfg': nondefault(c2), 'count': len(lst)})
+    # Lean checker on the same pairs
+    checked = 0
+    if ctx.model_available and lines:
+        ans = ctx.driver('fmt', lines)
+        for a, (kind, r) in zip(ans, meta):
+            if kind == 'check':
+                checked += 1
+                exp = f'S{int(r["skel_eq"])}C{int(r["com_eq"])}'
+                ctx.tag('lean:' + a if a.startswith('S') else 'lean:bad')
+                if a != exp:
+                    ctx.disagreement({'kind': 'check', 'text': r['text'], 'cfg': nondefault(cfgs[r['cfgid']]), 'lean': a, 'python': exp})
+            else:
+                exp = enc_list(lex_comments(r['text']))
+                if a != exp:
+                    ctx.disagreement({'kind': 'comments', 'text': r['text'], 'lean': a[:200], 'python': exp[:200]})
+    ctx.extra['disagreements_checked'] = checked
+    ctx.extra['pairs_validated_by_lean_checker'] = checked
+    tables = ctx.driver('fmt', ['tables'])[0] if ctx.model_available else ''
+    if tables.endswith(';1'):
+        ctx.notes.append('backslash is in the excluded list of the live code: simplify_preserves_denotation applies in full')
+    else:
+        ctx.notes.append('backslash is NOT in the excluded list of the live code: only simplify_preserves_denotation_partial '
+                         'applies (finding simplify:multiline-backslash)')
+
+
+# --------------------------------------------------------------------------------------------- search / replay
+
+def search(ctx: Ctx, disagreements: T.List[dict]) -> None:
+    """a theorem / table obligation / model-implementation correspondence no longer checks: look for a failing
+    input of the property itself around the disagreeing inputs and on every character of the string rules"""
+    if ctx.violations:
+        return
+    cfgdir = common.scratch_dir('mverif-c16s-')
+    try:
+        cfgs = [dict(DEFAULT_CFG), dict(DEFAULT_CFG, sort_files=True), dict(DEFAULT_CFG, simplify_string_literals=False)]
+        write_cfgs(cfgdir, cfgs)
+        texts: T.List[str] = []
+        for cp in range(32, 127):
+            c = chr(cp)
+            if c == "'":
+                texts += ["x = '''a'b'''\n", "x = f'''a'b'''\n"]
+                continue
+            texts += [f"x = '''a{c}b'''\n", f"x = f'''a{c}b'''\n", f"x = f'a{c}b@v@'\n", f"x = f'@{c}v@'\n", f"x = '''@v{c}@'''\n"]
+        texts += ["x = '''a\nb'''\n", "x = '''a\tb'''\n", "x = f'''@v@'''\n", "x = f'@v@'\n", "x = f'\\x40v\\x40'\n"]
+        for d in disagreements:
+            inp = d.get('input')
+            if d.get('kind') == 'decision' and inp:
+                if inp[0] in ('simp', 'den'):
+                    raw, multi, f = inp[1], inp[2], inp[3]
+                    q = "'''" if multi else "'"
+                    texts.append(f"x = {'f' if f else ''}{q}{raw}{q}\n")
+                elif inp[0] == 'sort':
+                    texts.append('files(' + ', '.join("'" + s.replace('\\', '').replace("'", '') + "'" for s in inp[1]) + ')\n')
+                    texts.append('files([' + ', '.join("'" + s.replace('\\', '').replace("'", '') + "'" for s in inp[1]) + '])\n')
+                elif inp[0] == 'flat':
+                    texts.append(inp[1] + '\n')
+            elif d.get('text'):
+                texts.append(d['text'])
+        for text in texts:
+            for ci in range(len(cfgs)):
+                r = run_pair(text, cfgdir, ci, cfgs[ci], want_ser=False)
+                ctx.count()
+                for key, what in r['viol']:
+                    ctx.violation(key, what, {'text': text, 'cfg': nondefault(cfgs[ci])})
+        if not ctx.violations:
+            rng = ctx.rng
+            for _ in range(4000):
+                text = gen_program(rng, rng.choice([1, 2, 3]), rng.choice([0.0, 0.3, 0.7]))
+                ci = rng.randrange(len(cfgs))
+                r = run_pair(text, cfgdir, ci, cfgs[ci], want_ser=False)
+                for key, what in r['viol']:
+                    ctx.violation(key, what, {'text': text, 'cfg': nondefault(cfgs[ci])})
+    finally:
+        common.rmtree(cfgdir)
+
+
+def replay(ctx: Ctx, rep: dict) -> None:
+    case = rep.get('case', {})
+    print('replay', rep.get('key'), rep.get('what'))
+    cfgdir = common.scratch_dir('mverif-c16r-')
+    try:
+        if 'text' in case:
+            cfg = dict(DEFAULT_CFG)
+            cfg.update(case.get('cfg', {}))
+            write_cfgs(cfgdir, [cfg])
+            r = run_pair(case['text'], cfgdir, 0, cfg)
+            print('input :', repr(case['text']))
+            print('config:', nondefault(cfg))
+            print('output:', repr(r.get('out')))
+            for key, what in r['viol']:
+                print('oracle:', key, what)
+                ctx.violation(key, what, case)
+            if 'ser_in' in r and ctx.model_available:
+                print('lean  :', ctx.driver('fmt', [f'check {int(bool(cfg["sort_files"]))}|{r["ser_in"]}|{r["ser_out"]}']))
+        else:
+            print('case:', case)
+    finally:
+        common.rmtree(cfgdir)
